@@ -59,6 +59,10 @@ def _eval_loaded(req):
             q = list(parseQuery(qt).values())[0]
             acc[qt] = bool(o.conditional_acceptance(q))
         out["accept"] = acc
+        if getattr(o, "conditionals", None):
+            out["own_accept"] = [bool(o.conditional_acceptance(c)) for c in list(o.conditionals.values())[: int(req.get("nown", 0))]]
+        else:
+            out["own_accept"] = []
         if req.get("full"):
             out["full"] = dict(o.compute_all_ranks())
         out["has_solver_attrs"] = [hasattr(o, "_optimizer"), hasattr(o, "_csp")]
@@ -227,10 +231,13 @@ class Run:
         self.cur = 0
         specs = [(doc["obj"], doc["base"]["text"])]
         if doc.get("obj2"):
-            specs.append((doc["obj2"], doc["obj2"]["base"]))
+            specs.append((doc["obj2"], doc["obj2"].get("base") or doc["base"]["text"]))
         self.other = None  # an unrelated object that also writes to the scenario's paths ("clobber")
         for spec, text in specs:
-            bb = parse_belief_base(text)
+            if spec.get("same_base") and self.slots:
+                bb = self.slots[0]["bb"]  # a second ranking object over the SAME BeliefBase object
+            else:
+                bb = parse_belief_base(text)
             for k in (doc["base"].get("drop_keys") or []) if spec is doc["obj"] else []:
                 # programmatic edit of the parsed base: keys are no longer 1..n
                 bb.conditionals.pop(int(k), None)
@@ -577,6 +584,8 @@ class Run:
         from inference.preocf import PreOCF
 
         ws, qs = self._sample_questions(op)
+        # acceptance of the object's own (after loading: unpickled) conditionals
+        nown = 2 if (self.kind != "custom" and getattr(self.obj, "conditionals", None)) else 0
         got = None
         loaded = None
         if where == "inproc":
@@ -586,6 +595,7 @@ class Run:
                 got["desc"] = _describe(loaded)
                 got["sample"] = {w: loaded.rank_world(w) for w in ws}
                 got["accept"] = {qt: bool(loaded.conditional_acceptance(self._cond(qt))) for qt in qs}
+                got["own_accept"] = [bool(loaded.conditional_acceptance(c)) for c in list((loaded.conditionals or {}).values())[:nown]]
                 if full:
                     got["full"] = dict(loaded.compute_all_ranks())
             except seams.HarnessError:
@@ -594,7 +604,7 @@ class Run:
                 got["exc"] = "%s: %s" % (type(e).__name__, str(e)[:300])
                 got["tb"] = traceback.format_exc()[-900:]
         else:
-            req = {"path": path, "worlds": ws, "queries": qs, "full": full}
+            req = {"path": path, "worlds": ws, "queries": qs, "full": full, "nown": nown}
             if self.doc.get("restart_warmup"):
                 req["warmup"] = self.doc["restart_warmup"]
             if where == "restart":
@@ -609,8 +619,11 @@ class Run:
         # the original answers the same questions AFTER the snapshot was taken
         orig_sample = {w: self.obj.rank_world(w) for w in ws}
         orig_accept = {qt: bool(self.obj.conditional_acceptance(self._cond(qt))) for qt in qs}
+        orig_own = [bool(self.obj.conditional_acceptance(c)) for c in list((self.obj.conditionals or {}).values())[:nown]] if nown else []
         full_want = dict(self.obj.compute_all_ranks()) if full else None
         self._compare_loaded(i, snap, orig_sample, orig_accept, got, where, full_want)
+        if not got.get("exc") and got.get("own_accept") is not None and list(got.get("own_accept")) != orig_own:
+            self.v("roundtrip_acceptance_of_own_conditionals", i, where=where, got=got.get("own_accept"), want=orig_own)
         return loaded
 
     def _solver_ids(self):
@@ -898,7 +911,11 @@ class Run:
         o = self.obj
         # every base conditional outside the infinity layer is accepted
         inf = set(ref.infinity_layer())
-        for n, (key, c) in enumerate(self.bb.conditionals.items()):
+        own = o.conditionals if getattr(o, "conditionals", None) else self.bb.conditionals
+        if list(own.keys()) != list(self.bb.conditionals.keys()):
+            own = self.bb.conditionals
+        # (the object's OWN conditional objects: after a reload they are the unpickled ones)
+        for n, (key, c) in enumerate(own.items()):
             if n in inf:
                 continue
             try:
@@ -1335,6 +1352,14 @@ def generate(prop, verif_seed, idx, tier="quick", cls=None):
             obj2 = {"kind": "system-z", "extended": ext2, "facts": None, "base": W.base_text(sig2, conds2, name="kb2")}
             if ext2 is not False and g.random() < 0.3:
                 obj2["facts"] = [_gen_fact(g, sig2)]
+            if g.random() < 0.35 and not base_extra and not any(op["op"] == "rebuild" for op in ops):
+                # (never together with 'rebuild': editing the base underneath a live object is outside the statement)
+                # ... or a second object over the very same BeliefBase object (same Conditional objects)
+                # in another mode / with facts; a standard-mode twin needs a consistent base
+                obj2 = {"kind": "system-z", "same_base": True, "facts": None, "extended": (True if want != "consistent" else g.choice([None, True, True]))}
+                if g.random() < 0.6:
+                    obj2["facts"] = [_gen_fact(g, sig)]
+                    obj2["extended"] = g.choice([None, True])
             doc["obj2"] = obj2
             for op in ops:
                 if op["op"] not in ("saveload", "rebuild") and g.random() < 0.45:
